@@ -89,7 +89,9 @@ Lemma tie_exit_if_errors : List.length skel_exit_if_errors = 2%nat /\ hd "" skel
 Proof. split; reflexivity. Qed.
 
 (* assemble: the limit is read first; parse, then expand (where the limit is set), then resolve and write; library
-   errors pass, anything else becomes the catch-all; the `finally` puts the limit back *)
+   errors pass, a RecursionError becomes a FlipJumpAssemblerException of its own ("nests too deeply"), anything else
+   becomes the catch-all (in the model all three are the diag carried by E_raw / E_backend); the `finally` puts the
+   limit back *)
 Lemma tie_assemble :
   skel_assemble =
   ["recursion_limit_before = sys.getrecursionlimit()"; "try:";
@@ -101,7 +103,9 @@ Lemma tie_assemble :
    "> > labels_resolve(ops, labels, memory_width, fjm_writer)"; "> assert_first_op_assembled(fjm_writer)";
    "> with PrintTimer('  create binary:   ', print_time=print_time):"; "> > fjm_writer.write_to_file()";
    "> > save_debugging_labels(debugging_file_path, labels)"; "except FlipJumpException as fj_exception:";
-   "> raise fj_exception"; "except Exception as unknown_exception:";
+   "> raise fj_exception"; "except RecursionError as recursion_error:";
+   "> raise FlipJumpAssemblerException(""The source nests too deeply for python's recursion limit (an expression with hundreds of nested terms, or macro nesting close to max_recursion_depth). Split the expression, or raise max_recursion_depth."") from recursion_error";
+   "except Exception as unknown_exception:";
    "> raise FlipJumpAssemblerException('Unknown exception during assembling the .fj files, please report this bug') from unknown_exception";
    "finally:"; "> sys.setrecursionlimit(recursion_limit_before)"].
 Proof. reflexivity. Qed.
